@@ -87,7 +87,78 @@ def gen_reservoir(repo):
     return ''.join(out)
 
 
+class ConstEval(object):
+    """Evaluates module-level constant assignments: literals, tuple/list/set/dict displays,
+    references to earlier constants, `+` on sequences, set([...]) / frozenset / tuple / dict([...])."""
+
+    def __init__(self, tree):
+        self.tree = tree
+        self.env = {}
+
+    def get(self, name):
+        if name not in self.env:
+            self.env[name] = self.ev(module_assign(self.tree, name))
+        return self.env[name]
+
+    def ev(self, n):
+        if isinstance(n, ast.Constant):
+            return n.value
+        if isinstance(n, (ast.Tuple, ast.List)):
+            return tuple(self.ev(e) for e in n.elts)
+        if isinstance(n, ast.Set):
+            return frozenset(self.ev(e) for e in n.elts)
+        if isinstance(n, ast.Dict):
+            return dict((self.ev(k), self.ev(v)) for k, v in zip(n.keys, n.values))
+        if isinstance(n, ast.Name):
+            return self.get(n.id)
+        if isinstance(n, ast.BinOp) and isinstance(n.op, ast.Add):
+            return self.ev(n.left) + self.ev(n.right)
+        if isinstance(n, ast.JoinedStr):
+            raise TranslatorError('f-string in constant')
+        if isinstance(n, ast.Call) and isinstance(n.func, ast.Name) and n.func.id in ('set', 'frozenset', 'tuple', 'list') \
+                and len(n.args) == 1 and not n.keywords:
+            v = self.ev(n.args[0])
+            return frozenset(v) if n.func.id in ('set', 'frozenset') else tuple(v)
+        raise TranslatorError('constant expression outside whitelist: %s' % ast.dump(n)[:200])
+
+
+def names_list(xs):
+    return coq_list([coq_str(x) for x in xs])
+
+
+def gen_tables(repo):
+    route = ConstEval(parse(repo, 'clastic/route.py'))
+    core = ConstEval(parse(repo, 'clastic/middleware/core.py'))
+    out = [HEADER % 'clastic/route.py, clastic/middleware/core.py',
+           'From Coq Require Import List String.\nImport ListNotations.\nLocal Open Scope string_scope.\n\n']
+    out.append('Definition REQUEST_BUILTINS : list string := %s.\n' % names_list(route.get('_REQUEST_BUILTINS')))
+    out.append('Definition RENDER_BUILTINS : list string := %s.\n' % names_list(route.get('_RENDER_BUILTINS')))
+    out.append('Definition RESERVED_ARGS : list string := %s.\n' % names_list(route.get('RESERVED_ARGS')))
+    out.append('Definition INNER_NAME : string := %s.\n' % coq_str(core.get('_INNER_NAME')))
+    out.append('Definition HTTP_METHODS : list string := %s.\n' % names_list(sorted(route.get('HTTP_METHODS'))))
+    # NullRoute: pattern and the parameter names of its endpoint
+    tree = route.tree
+    nr = find_class(tree, 'NullRoute')
+    hs = find_def(nr.body, 'handle_sentinel_condition')
+    a = hs.args
+    if a.vararg or a.kwarg or a.kwonlyargs or a.defaults or a.posonlyargs or a.args[0].arg != 'self':
+        raise TranslatorError('NullRoute.handle_sentinel_condition signature shape')
+    out.append('Definition NULL_ENDPOINT_ARGS : list string := %s.\n' % names_list([x.arg for x in a.args[1:]]))
+    init = find_def(nr.body, '__init__')
+    pat = None
+    for n in ast.walk(init):
+        if isinstance(n, ast.Call) and n.args and isinstance(n.args[0], ast.Constant) and isinstance(n.args[0].value, str):
+            pat = n.args[0].value
+    if pat is None:
+        raise TranslatorError('NullRoute pattern not found')
+    out.append('Definition NULL_PATTERN : string := %s.\n' % coq_str(pat))
+    nr_render = find_def(tree.body, '_noop_render')
+    out.append('Definition NOOP_RENDER_ARGS : list string := %s.\n' % names_list([x.arg for x in nr_render.args.args]))
+    return ''.join(out)
+
+
 GENERATORS = {
+    'Tables.v': gen_tables,
     'ReservoirGen.v': gen_reservoir,
 }
 
